@@ -67,4 +67,42 @@ def _mk(pid, kind):
 
 
 def items(pid):
-    return [(_mk(pid, 'single'),), (_mk(pid, 'single-none'),), (_mk(pid, 'multi-list'),), (_mk(pid, 'multi-no-list'),)]
+    return [(_mk(pid, 'single'), None, replay_unloadable), (_mk(pid, 'single-none'), None, replay_unloadable), (_mk(pid, 'multi-list'),), (_mk(pid, 'multi-no-list'),)]
+
+
+def replay_unloadable(obligation=None, model=None, meta=None):
+    """native: andes.main.run(cli=True) on a file that exists but cannot be loaded (empty / garbage raw) returns a non-zero exit code; a
+    valid case returns 0"""
+    import contextlib
+    import io
+    import logging
+    import os
+    import shutil
+    import tempfile
+    import andes
+    from andes.main import run
+    logging.getLogger('andes').setLevel(logging.CRITICAL)
+    tmp = tempfile.mkdtemp(prefix='verif_main_')
+    n = 0
+    try:
+        files = {'empty.raw': '', 'garbage.raw': 'this is not a power-flow case\n1 2 3\n'}
+        for fname, text in files.items():
+            n += 1
+            with open(os.path.join(tmp, fname), 'w') as f:
+                f.write(text)
+            with contextlib.redirect_stdout(io.StringIO()), contextlib.redirect_stderr(io.StringIO()):
+                try:
+                    code = run(fname, input_path=tmp, cli=True, verbose=50, default_config=True, no_output=True)
+                except SystemExit as e:      # noqa
+                    code = e.code
+            if code == 0 or code is None or code is False:
+                return {'confirmed': True, 'inputs': {'file': fname, 'content': text, 'call': 'andes.main.run(file, input_path=<dir>, cli=True, default_config=True, no_output=True)'},
+                        'observed': 'exit code %r for a case file that could not be loaded' % (code,), 'native_cmd': 'contracts/fn_main.py replay_unloadable'}
+        n += 1
+        with contextlib.redirect_stdout(io.StringIO()), contextlib.redirect_stderr(io.StringIO()):
+            code = run(andes.get_case('5bus/pjm5bus.xlsx'), cli=True, verbose=50, default_config=True, no_output=True)
+        if code != 0:
+            return {'confirmed': True, 'inputs': {'file': '5bus/pjm5bus.xlsx'}, 'observed': 'exit code %r for a valid case' % (code,), 'native_cmd': 'contracts/fn_main.py replay_unloadable'}
+    finally:
+        shutil.rmtree(tmp, ignore_errors=True)
+    return {'confirmed': False, 'tried': n}
